@@ -135,6 +135,15 @@ def run_case(case):
     variant = "asan" if idx % 4 == 3 else "plain"
     res = dict(key=None, violations=[], counters={}, nontrivial=False)
     cfg = scen.gen_config(rng, max_nd=5, max_lev=3)
+    if idx % 8 == 1:
+        # (see uuid_swap below) two UUIDs change at once: needs two data disks, and two parity levels to be let through
+        cfg["nd"] = max(2, cfg["nd"])
+        cfg["nlev"] = max(2, cfg["nlev"])
+        cfg["content_on_data"] = False  # the content lines must not follow the exchanged data lines
+        if cfg["nlev"] != 3:
+            cfg["zmode"] = False
+        if cfg.get("splits") and len(cfg["splits"]) != cfg["nlev"]:
+            cfg.pop("splits")
     use_inodes = idx % 2 == 0
     ext4 = idx % 6 == 2
     opts = []
@@ -151,12 +160,18 @@ def run_case(case):
     # round on; in between two files of equal size and time-stamp get each other's inode number while names, bytes and
     # time-stamps stay as they are (restore from a backup) - nothing changed, nothing may be re-attributed
     transition = idx % 8 == 5
+    # one case in eight: the first two data disks are REPLACED (their UUIDs change from one non-empty value to another: the
+    # fake UUIDs go by configuration order, so the two data lines are exchanged) and the twin files come back from the
+    # backup with each other's inode number: inode numbers of the old file-system mean nothing on the new one
+    uuid_swap = idx % 8 == 1
+    if uuid_swap and "--test-fake-uuid" not in opts:
+        opts.append("--test-fake-uuid")
     if transition:
         opts = [o for o in opts if o != "--test-fake-uuid"]
     try:
         A.populate(fs, rng, nfiles=rng.randint(4, 16), hostile=0.2)
-        if transition:
-            td = rng.choice(a.disks)
+        if transition or uuid_swap:
+            td = rng.choice(a.disks[:2] if uuid_swap else a.disks)
             tn = rng.randint(1, 3 * a.bs)
             tt = fs.clock.next()
             fs.write(td, b"twin-a", A.gen_bytes(rng, tn, "rand"), mtime_ns=tt)
@@ -164,7 +179,7 @@ def run_case(case):
         prev_sig = {}
         rounds = 3 if tier == "quick" else 6
         for rnd in range(rounds):
-            if rnd == 1 and transition:
+            if rnd == 1 and (transition or uuid_swap):
                 pa, pb = fs.path(td, b"twin-a"), fs.path(td, b"twin-b")
                 if os.path.isfile(pa) and os.path.isfile(pb) and not os.path.islink(pa) and not os.path.islink(pb):
                     da, db = open(pa, "rb").read(), open(pb, "rb").read()
@@ -179,15 +194,21 @@ def run_case(case):
                         os.utime(p_, ns=(st_.st_atime_ns, st_.st_mtime_ns))
                     hist.append("inode-exchange")
                     res["counters"]["uuid_transitions_with_inode_exchange"] = 1
-                opts = opts + ["--test-fake-uuid"]
-            if rnd == 2 and transition:
+                if uuid_swap:
+                    a.disks[0], a.disks[1] = a.disks[1], a.disks[0]
+                    a.write_conf()
+                    hist.append("uuid-change-of-two-disks")
+                    res["counters"]["uuid_changes_with_inode_exchange"] = 1
+                else:
+                    opts = opts + ["--test-fake-uuid"]
+            if rnd == 2 and (transition or uuid_swap):
                 # the twins share size and time-stamp: any later swap/rename between them would be a content change under an
                 # unchanged name, size and time-stamp, which no scanner can see - they leave before the random operations
                 for tw in (b"twin-a", b"twin-b"):
                     if tw in fs.entries[td]:
                         fs.remove(td, tw)
             will_partial = rng.random() < 0.4
-            if rnd > 0 and not (rnd == 1 and transition):
+            if rnd > 0 and not (rnd == 1 and (transition or uuid_swap)):
                 ops = scen.mutate(fs, rng, rng.randint(1, 8), hostile=0.2)
                 if will_partial and len(a.disks) > 1 and rng.random() < 0.6:
                     # a copy (same name, size, time-stamp on another disk) is among the changes the incomplete sync will meet
